@@ -6,6 +6,7 @@ import Drv.C345
 import Drv.C789
 import Drv.HT
 import Drv.Heap
+import Drv.DC
 open Lean Drv
 
 def dispatch (op : String) (j : Json) : Json :=
@@ -22,6 +23,7 @@ def dispatch (op : String) (j : Json) : Json :=
   | "C08.struct" => C08.struct j
   | "C09.cols" => C09.cols j
   | "HT.run" => HTd.run j
+  | "DC.run" => DCd.run j
   | "Heap.run" => HeapD.run j
   | "RL.encode" => RL.encode j
   | "RL.index" => RL.index j
